@@ -11,6 +11,14 @@ schedule is any `List (Tid × Lab)`; disabled transitions are skipped.
 Transitions follow `Handler.emit` (lock, `_stopped` test, `queue.put`), `Handler.stop` (lock, set
 `_stopped`; non-owner returns; owner puts the sentinel, joins the worker, stops the sink),
 `Handler.complete_queue` (confirmation lock, put `True`, wait, clear) and `Handler._queued_writer`.
+
+Error paths (round 5): `queue.put` may raise in `emit` (the record cannot be pickled: nothing enters the queue, the
+lock is released – `putFail`); in the worker `queue.get()` may raise after consuming a message it cannot un-pickle
+(`getFail`: the message is reported and skipped) or without consuming anything (`getRaise`), and `sink.write` may
+raise (`writeFail`: reported, skipped).  Which message fails is a free choice of the schedule (any message may), so
+the theorems hold for every pattern of failures; the ghost log `handled` records what the worker did with each
+message.  That each of these errors sends the worker back to `loop` is what the loop of the CURRENT SOURCE does for
+every exception class deriving from `Exception` (`Queue/Worker.lean`, `C03.model_error_steps_follow_source`).
 -/
 namespace Queue
 
@@ -27,10 +35,21 @@ inductive Lab where
   | startLog (m : Nat) | startStop | startComplete
   | acqL | relL | rStopped (b : Bool) | wStopped
   | put (i : Item)
+  | putFail                 -- emit: `queue.put` raised (the record cannot be pickled): nothing entered the queue
   | join | sinkStop
   | acqConf | relConf | waitEvent | clearEvent
   -- worker
   | get (i : Item) | write | setEvent | exit
+  | getFail (i : Item)      -- `queue.get()` consumed item i but raised while un-pickling it (error report, `continue`)
+  | getRaise                -- `queue.get()` raised without consuming anything (error report, `continue`)
+  | writeFail               -- `sink.write(message)` raised (error report under the queue lock, next iteration)
+  deriving DecidableEq, Repr
+
+/-- what the worker did with a message it took from the queue -/
+inductive Outcome where
+  | written      -- `sink.write` returned
+  | refused      -- `sink.write` raised: reported on stderr, the worker goes on
+  | unreadable   -- `queue.get()` raised while un-pickling it: reported on stderr, the worker goes on
   deriving DecidableEq, Repr
 
 inductive Pc where
@@ -63,6 +82,7 @@ structure St where
   sink : List (Tid × Nat) := []        -- oldest first
   sinkStopped : Bool := false
   -- ghost
+  handled : List ((Tid × Nat) × Outcome) := []   -- every message the worker is done with, oldest first
   putLog : List (Tid × Nat) := []      -- every message ever put, oldest first
   sentMark : Option Nat := none        -- |putLog| when the sentinel was put
   removed : Bool := false              -- the owner's stop() has returned
@@ -89,6 +109,15 @@ def heldOf : WPc → List (Tid × Nat)
   | .hold t m => [(t, m)]
   | _ => []
 
+/-- the messages the worker is done with, in order -/
+def hmsgs (h : List ((Tid × Nat) × Outcome)) : List (Tid × Nat) := h.map (·.1)
+
+/-- those of them the sink has written -/
+def writtenOf : List ((Tid × Nat) × Outcome) → List (Tid × Nat)
+  | [] => []
+  | (e, .written) :: r => e :: writtenOf r
+  | _ :: r => writtenOf r
+
 /-- a transition of the worker thread (`_queued_writer`) -/
 def stepW (s : St) (lab : Lab) : Option St :=
   match s.w, lab with
@@ -102,7 +131,19 @@ def stepW (s : St) (lab : Lab) : Option St :=
         | .confirm => some { s with queue := rest, w := .confirming }
         | .sentinel => some { s with queue := rest, w := .done }
       else none
-  | .hold u m, .write => some { s with w := .loop, sink := s.sink ++ [(u, m)] }
+  | .loop, .getFail i =>
+    match s.queue with
+    | [] => none
+    | j :: rest =>
+      if i = j then
+        match j with
+        | .msg u m => some { s with queue := rest, handled := s.handled ++ [((u, m), .unreadable)] }
+        | _ => none                                  -- `None` / `True` always un-pickle
+      else none
+  | .loop, .getRaise => some s
+  | .hold u m, .write =>
+    some { s with w := .loop, sink := s.sink ++ [(u, m)], handled := s.handled ++ [((u, m), .written)] }
+  | .hold u m, .writeFail => some { s with w := .loop, handled := s.handled ++ [((u, m), .refused)] }
   | .confirming, .setEvent => some { s with w := .loop, event := true }
   | _, _ => none
 
@@ -121,6 +162,7 @@ def stepP (proc : Tid → Pid) (s : St) (t : Tid) (lab : Lab) : Option St :=
     if i = .msg t m then
       some { setPc s t .e3 with queue := s.queue ++ [i], putLog := s.putLog ++ [(t, m)] }
     else none
+  | .e2 _ false, .putFail => some (setPc s t .e3)
   | .e3, .relL => some { setPc s t .idle with lock := upd s.lock (proc t) none }
   -- ------------------------------------------------------------ stop
   | .s0, .acqL => if s.lock (proc t) = none then some { setPc s t .s1 with lock := upd s.lock (proc t) (some t) } else none
